@@ -407,6 +407,27 @@ Theorem c16_ct_tag_boundary unwrapk open ns p k i c t x a :
   jwe_decrypt unwrapk open ns {| je_prot := p; je_key := k; je_iv := i; je_ct := c; je_tag := x :: t |} a.
 Proof. exact (jwe_ct_tag_boundary unwrapk open ns p k i c t x a). Qed.
 
+(* ---------------------------------------------------------------- histories on one object *)
+(* In the model a signed / encrypted object is a persistent value.  Whatever operation is applied
+   -- Verify / Decrypt with the right or a wrong key, CompactSerialize, FullSerialize, parse and
+   use, the caller overwriting the slices it passed in or got back -- the objects are unchanged;
+   hence every result of a history is a function of the objects as created and of that one
+   operation: all serializations of an object are identical, and the right key returns exactly
+   the payload every time.  (Trivial here; the harness runs the same histories on the
+   implementation, kind 30, where aliasing between the object, the caller's slices and the
+   primitives' buffers would break exactly this.) *)
+Theorem c16_history_persistent :
+  (forall objs op, fst (hist_step objs op) = objs) /\
+  (forall objs ops, hist_run objs ops = map (fun op => snd (hist_step objs op)) ops) /\
+  (forall o, hist_obs o 3 = SL [SZ 3; SZ 0; SB (hobj_payload o)] /\
+             hist_obs o 4 = SL [SZ 4; SZ 1] /\
+             hist_obs o 1 = SL [SZ 1; SB (hobj_compact o)] /\
+             hist_obs o 2 = SL (SZ 2 :: hobj_members o) /\
+             hist_obs o 6 = SL [SZ 6; SZ 0; SB (hobj_payload o)] /\
+             hist_obs o 10 = SL [SZ 10; SZ 0; SB (hobj_payload o); SZ 0; SB (hobj_payload o)] /\
+             hist_obs o 11 = SL [SZ 11; SZ 1; SZ 0; SB (hobj_payload o)]).
+Proof. split; [exact hist_step_persistent|]. split; [exact hist_run_pointwise|exact hist_obs_spec]. Qed.
+
 (* ---------------------------------------------------------------- totality (imported by C07) *)
 Theorem jose_b64_total s : forall p, b64url_decode_r s <> Panic p.
 Proof. exact (b64url_decode_r_total s). Qed.
@@ -513,6 +534,7 @@ Print Assumptions c16_roundtrip_sym_jwe.
 Print Assumptions c16_tamper_sym_jwe.
 Print Assumptions c16_tamper_cbc_hmac.
 Print Assumptions c16_ct_tag_boundary.
+Print Assumptions c16_history_persistent.
 Print Assumptions jose_b64_total.
 Print Assumptions jose_unpad_total.
 Print Assumptions jose_keyunwrap_total.
